@@ -23,6 +23,20 @@ def jobs(tier):
     # The real pfx_table_copy_except_socket / pfx_table_swap unit (harness_copy_swap in pfx_notify.c) is NOT part of
     # either tier: its symbolic execution did not finish within 15 minutes even for one-record tables (for_each
     # callback -> pfx_table_add -> trie_insert on a second symbolic table).  Run it with VERIF_C06_COPYSWAP=1.
+    # Fixed-shape variants do finish: single node with 1 / 2 records, two nodes with one record each
+    shapes = [("v4_n1", 4, 0, 1, 1, "1"), ("v4_n2", 4, 0, 2, 1, "2"), ("v4_n3", 4, 0, 3, 1, "3"), ("v4_rootleft", 4, 1, 1, 3, "1,1,1"),
+              ("v4_rootright", 4, 1, 1, 5, "1,1,1"), ("v4_root2leaves", 4, 1, 1, 7, "1,1,1"), ("v4_root2leaves_e2", 4, 1, 2, 7, "2,1,2"),
+              ("v6_n2", 6, 0, 2, 1, "2"), ("v6_root2leaves", 6, 1, 1, 7, "1,1,1")]
+    if tier == "thorough":
+        shapes += [("v4_leafL_innerR", 4, 2, 1, 39, "1,1,1,1,1,1,1"), ("v4_innerL_leafR", 4, 2, 1, 15, "1,1,1,1,1,1,1"),
+                   ("v4_full_d2", 4, 2, 1, 127, "1,1,1,1,1,1,1")]
+    for nm, fam, td, te, shape, nrecs in shapes:
+        J.append(C02.op_job("copy_swap_%s" % nm, "harness_copy_swap", td, te, fam, 2400, prop="ASSERT_C06", harness="pfx_notify.c",
+                            extra=["TL_OTHER_EMPTY", "TL_SHAPE=%d" % shape, "TL_NRECS=%s" % nrecs], mem=16, weight=2,
+                            what="real pfx_table_copy_except_socket + pfx_table_swap on a trie of fixed shape %s (all field values and "
+                                 "the reloading socket symbolic): the shadow table holds exactly the other caches' records, is a valid "
+                                 "table, the live table is untouched by the copy; the swap exchanges both roots inside one write section "
+                                 "of each table" % nm))
     import os
     if os.environ.get("VERIF_C06_COPYSWAP"):
         J.append(C02.op_job("copy_swap_v4_d0e1", "harness_copy_swap", 0, 1, 4, 7200, prop="ASSERT_C06", harness="pfx_notify.c",
